@@ -69,9 +69,11 @@ fn main() {
             for _ in 0..a.num("hist", 100) {
                 let h = match a.get("prop") {
                     "c01" => gens::c01(&mut rng, len),
+                    "c03" => gens::c03(&mut rng, len),
                     "c04" => gens::c04(&mut rng, len),
                     "c05" => gens::c05(&mut rng, len),
                     "c06" => gens::c06(&mut rng, len),
+                    "c09" => gens::c09(&mut rng, len),
                     "c07" => gens::c07(&mut rng, len),
                     p => panic!("no generator for {}", p),
                 };
